@@ -4784,3 +4784,11 @@ impl IceTransport {
         self.inner.buffered_packets.lock().iter().cloned().collect()
     }
 }
+
+#[cfg(rustrtc_verif)]
+impl IceTransport {
+    /// `stun_request_authenticated` on this transport's local parameters.
+    pub fn verif_request_authenticated(&self, packet: &[u8]) -> bool {
+        stun_request_authenticated(packet, &self.inner)
+    }
+}
